@@ -197,7 +197,7 @@ def facts_in_expr(run, model, rel, expr, self_ty, depth, seen):
     return facts(run, model, rel, expr, self_ty, depth, seen)[1]
 
 
-def r15_3(run, model, mir):
+def r15_3(run, model, mir, need=None, core_header=True):
     run.rule("R15.3", "every deserialised InterfaceUnit/CoreUnit passes, before it can be returned, a rejecting test that establishes "
                       "interface_hash == compute_hash(), format_version == FORMAT_VERSION and compiler_abi == COMPILER_ABI")
     sites = []
@@ -211,7 +211,7 @@ def r15_3(run, model, mir):
             continue
         sites.append((c, m.group(1)))
     run.floor("artifact deserialisation sites", len(sites), 2)
-    need_all = {"interface_hash==compute_hash()", "format_version==FORMAT_VERSION", "compiler_abi==COMPILER_ABI"}
+    need_all = need or {"interface_hash==compute_hash()", "format_version==FORMAT_VERSION", "compiler_abi==COMPILER_ABI"}
     for c, ty in sites:
         rel = c["file"]
         fn_ = None
@@ -243,6 +243,21 @@ def r15_3(run, model, mir):
             if not diverges:
                 continue
             cond_txt = S.norm_ws(run.facts.text(rel, iff["cond"]["sp"]))
+            # `if let Some(reason) = explain(&unit) { return Err(..) }`: the facts that hold when the explaining helper returns None
+            if iff["cond"]["k"] == "Let" and re.match(r"Some\(", S.norm_ws(run.facts.text(rel, iff["cond"]["pat"]["sp"]))):
+                init = iff["cond"].get("expr") or iff["cond"].get("init")
+                if init is not None and init["k"] == "Call":
+                    g = model.opt_fn(S.callee_name(init) or "", rel)
+                    if g is not None and g.body is not None:
+                        sub_none = set()
+                        for st in g.body["stmts"]:
+                            e = st.get("expr") if st["k"] == "ExprStmt" else None
+                            if e is not None and e["k"] == "If" and any(r.get("expr") is not None and S.callee_name(r["expr"]) == "Some" for r in S.find(e["then"], "Return")):
+                                sub_none |= facts(run, model, g.file, e["cond"], ty, 1, set())[1]
+                        if sub_none:
+                            rejecting += 1
+                            tags |= sub_none
+                        continue
             # the condition must be a *negated* validation or an inequality against the constants
             sub = facts_in_expr(run, model, rel, iff["cond"], ty, 0, set())
             # polarity: `!x.validate()` or `a != CONST`; a positive `x.validate()` guarding a return Err would be inverted logic
@@ -253,7 +268,7 @@ def r15_3(run, model, mir):
         run.ob("R15.3", key + "|validated before use", not missing, site(rel, [c["line"]]),
                f"`{var}` ({ty}) from serde_json; rejecting tests establish {sorted(tags) or 'nothing'}" + (f"; missing: {missing}" if missing else ""),
                witness="an artifact written by another format version / ABI (or with an inconsistent hash) is accepted and linked")
-        if ty == "CoreUnit":
+        if ty == "CoreUnit" and core_header:
             extra = {"package==interface.package", "deps==interface.deps"}
             miss2 = sorted(extra - tags)
             run.ob("R15.3", key + "|core header agrees with its hashed interface", not miss2, site(rel, [c["line"]]),
